@@ -20,10 +20,52 @@ extern "C" time_t time(time_t* t) noexcept
   return v;
 }
 
+// ---- surface meshes (shape dimension 2, three world coordinates): the patch meshes must carry ALL coordinates of the base vertices they map to
+#include <kernel/geometry/conformal_mesh.hpp>
+#include <kernel/geometry/mesh_node.hpp>
+#include <kernel/geometry/mesh_part.hpp>
+#include <kernel/adjacency/graph.hpp>
+template<typename Shape_> static void c12_surf_case(vf::Tape& t, vf::Ctx& c, const char* sname)
+{
+  using FEAT::Index; typedef FEAT::Geometry::ConformalMesh<Shape_, 3, double> M; typedef FEAT::Geometry::RootMeshNode<M> Node; typedef FEAT::Geometry::MeshPart<M> Part;
+  constexpr bool quad = std::is_same<Shape_, FEAT::Shape::Hypercube<2>>::value;
+  const int nx = t.range(1, 4), ny = t.range(1, 3); const int nv = (nx + 1) * (ny + 1);
+  std::vector<std::array<double, 3>> vtx((size_t)nv); for(int j = 0; j <= ny; ++j) for(int i = 0; i <= nx; ++i) vtx[(size_t)(j * (nx + 1) + i)] = {i + 0.125 * t.real(1), j + 0.125 * t.real(1), t.real(2)};
+  std::vector<std::vector<Index>> cells; for(int j = 0; j < ny; ++j) for(int i = 0; i < nx; ++i) { Index a = Index(j * (nx + 1) + i), b = a + 1, d = a + Index(nx + 1), e = d + 1;
+    if(quad) cells.push_back({a, b, d, e}); else { cells.push_back({a, b, d}); cells.push_back({b, e, d}); } }
+  const int nc = int(cells.size()); const int R = t.range(1, std::min(4, nc)); std::vector<int> rank((size_t)nc); for(int k = 0; k < nc; ++k) rank[(size_t)k] = k < R ? k : t.range(0, R - 1);
+  vf::J d = vf::J::obj(); d.set("surface", sname); d.set("nx", nx); d.set("ny", ny); d.set("ranks", R); { vf::J a = vf::J::arr(); for(int r : rank) a.add(r); d.set("cell_rank", a); } { vf::J a = vf::J::arr(); for(auto& v : vtx) { vf::J q = vf::J::arr(); q.add(v[0]); q.add(v[1]); q.add(v[2]); a.add(q); } d.set("vertices", a); }
+  c.desc = d; c.op = "surface-extract"; c.label(std::string("surface:") + sname); c.label("ranks:" + std::to_string(R)); c.nontrivial = R >= 2; c.announce();
+  Index ne[4] = {Index(nv), 0, Index(nc), 0}; std::unique_ptr<M> mesh(new M(ne));
+  for(int i = 0; i < nv; ++i) for(int k = 0; k < 3; ++k) mesh->get_vertex_set()[Index(i)][k] = vtx[(size_t)i][(size_t)k];
+  { auto& is = mesh->template get_index_set<2, 0>(); for(int q = 0; q < nc; ++q) for(int k = 0; k < is.num_indices; ++k) is[Index(q)][k] = cells[(size_t)q][(size_t)k]; }
+  mesh->deduct_topology_from_top();
+  std::unique_ptr<Node> base(new Node(std::move(mesh)));
+  const Index gR = Index(R), gN = Index(nc); FEAT::Adjacency::Graph g(gR, gN, gN); { Index* ptr = g.get_domain_ptr(); Index* idx = g.get_image_idx(); Index o = 0; for(int r = 0; r < R; ++r) { ptr[r] = o; for(int q = 0; q < nc; ++q) if(rank[(size_t)q] == r) idx[o++] = Index(q); } ptr[R] = o; }
+  std::vector<std::unique_ptr<Node>> ps; std::vector<std::vector<int>> comm((size_t)R); for(int r = 0; r < R; ++r) ps.push_back(base->extract_patch(comm[(size_t)r], g, r));
+  auto check = [&](const Node& b, int level)
+  {
+    for(int r = 0; r < R; ++r)
+    {
+      const Part* pp = b.get_patch(r); VF_CHECK(pp != nullptr, "level " << level << ": base node has no patch mesh-part for rank " << r);
+      VF_CHECK(ps[(size_t)r] && ps[(size_t)r]->get_mesh(), "level " << level << ": no patch mesh for rank " << r); const M& pm = *ps[(size_t)r]->get_mesh();
+      long want = 0; for(int q : rank) if(q == r) ++want; for(int l = 0; l < level; ++l) want *= 4;
+      VF_CHECK(long(pm.get_num_elements()) == want, "level " << level << ": patch " << r << " has " << pm.get_num_elements() << " cells, " << want << " expected");
+      const auto& ts = pp->template get_target_set<0>(); VF_CHECK(ts.get_num_entities() == pm.get_num_vertices(), "level " << level << ": patch " << r << " has " << pm.get_num_vertices() << " vertices, its mesh-part maps " << ts.get_num_entities());
+      for(Index i = 0; i < pm.get_num_vertices(); ++i) for(int k = 0; k < 3; ++k) { const double a = pm.get_vertex_set()[i][k], w = b.get_mesh()->get_vertex_set()[ts[i]][k];
+        VF_CHECK(std::fabs(a - w) <= 1e-13 * (1.0 + std::fabs(w)), "level " << level << ": patch " << r << " vertex " << i << " coordinate " << k << " = " << a << ", base vertex " << ts[i] << " has " << w); }
+    }
+  };
+  check(*base, 0);
+  base = base->refine_unique(FEAT::Geometry::AdaptMode::none); for(auto& p : ps) p = p->refine_unique(FEAT::Geometry::AdaptMode::none);
+  check(*base, 1);
+}
+
 int main(int argc, char** argv)
 {
   FEAT::Runtime::ScopeGuard guard(argc, argv);
   std::vector<vf::Target> tg;
   c12_register_quad(tg); c12_register_tria(tg); c12_register_hexa(tg); c12_register_tetra(tg); c12_register_split_quad(tg); c12_register_split_tria(tg); c12_register_split_hexa(tg); c12_register_split_tetra(tg);
+  tg.push_back({"surf_parti", [](vf::Tape& t, vf::Ctx& c) { if(t.flag(1, 2)) c12_surf_case<FEAT::Shape::Hypercube<2>>(t, c, "quad-in-3d"); else c12_surf_case<FEAT::Shape::Simplex<2>>(t, c, "tria-in-3d"); }, 96, 2, 30000});
   return vf::main_impl(argc, argv, tg);
 }
